@@ -398,6 +398,10 @@ def gate_matrix():
             if lo <= z <= hi:
                 out.append(("int" if w.startswith("i") else "uint", w, z))
         out.append(("big", z, False)); out.append(("big", z, True))
+    # big.Int around the one-byte length of LONG1 (255 / 256 payload bytes) and a few well beyond
+    for nb in (2031, 2032, 2033, 2039, 2040, 2041, 2047, 2048, 2049, 4096):
+        for z in ((1 << nb) - 1, 1 << nb, -(1 << nb), -(1 << nb) - 1, -(1 << nb) + 1):
+            out.append(("big", z, False))
     for bits in (0, 1 << 63, 0x7ff0000000000000, 0xfff0000000000000, 0x7ff8000000000001, 1, 0x3ff0000000000000,
                  0x3fb999999999999a, 0x7fefffffffffffff, 0x0010000000000000, 0x4059000000000000, 0x412e848000000000,
                  0x4415af1d78b58c40, 0x3f1a36e2eb1c432d, 0x3ee4f8b588e368f1):
